@@ -146,16 +146,19 @@ class _Session:
         class Rec(urwid.WidgetWrap):
             _sizing = frozenset(["box"])
 
-            def __init__(self, w, tag):
+            def __init__(self, w, tag, sel=True):
                 self.tag = tag
+                self.sel = sel
                 super().__init__(w)
 
             def selectable(self):
-                return True
+                return self.sel
 
             def keypress(self, size, key):
                 sess.point("keypress")
-                rv = super().keypress(size, key)
+                # (an unselectable page must not be offered keys at all; if it is, the call is recorded and the key
+                # handed back)
+                rv = super().keypress(size, key) if self.sel else key
                 if rv == "B":
                     # a widget may pass on a DIFFERENT key than it was given (a vi-keys wrapper does): the
                     # unhandled-input handler must see what the widget returned
@@ -177,6 +180,8 @@ class _Session:
 
         # a second page the application switches to (loop.widget = ...) when it sees f6
         self.page2 = Rec(urwid.Filler(urwid.Edit("page2:", "")), "page2")
+        # ... and a third one that takes no keys at all (a splash screen): f6 cycles base -> page2 -> splash -> base
+        self.page3 = Rec(urwid.Filler(urwid.Text("splash")), "splash", sel=False)
         self.page1 = Rec(self.inner, "base")
         return self.page1
 
@@ -323,7 +328,8 @@ class _Session:
                     return True
                 if key == "f6":
                     # the application replaces its topmost widget from inside an input handler
-                    ml.widget = self.page2 if ml.widget is self.page1 else self.page1
+                    pages = [self.page1, self.page2, self.page3]
+                    ml.widget = pages[(pages.index(ml.widget) + 1) % 3]
                     self.res.probe("root_widget_replaced_from_handler")
                     return True
                 return False
@@ -676,7 +682,14 @@ class _Session:
                     self.res.probe("input_after_root_swap_in_same_batch")
                 pop_shown = launcher_open and can_show and page == "base"
                 c = calls[i] if i < n else None
-                if is_mouse and pop_shown and (c is None or c[0] != "mouse"):
+                if not is_mouse and page == "splash" and not pop_shown:
+                    # the topmost widget is not selectable: the key is not offered to it and is unhandled as it is
+                    if c is not None and c[0] == "keypress":
+                        self.violate("C12.1", "key-offered-to-unselectable-topmost-widget", f"{key!r}: {c!r}")
+                        return
+                    handled, ukey = False, key
+                    self.res.probe("key_with_unselectable_topmost_widget")
+                elif is_mouse and pop_shown and (c is None or c[0] != "mouse"):
                     # a pointer event outside the pop-up: the overlay offers it to nobody and reports it unhandled
                     handled, ukey = False, key
                     self.res.probe("mouse_outside_open_popup")
@@ -727,7 +740,7 @@ class _Session:
                     return
                 i += 1
                 if ukey == "f6":
-                    page = "page2" if page == "base" else "base"
+                    page = {"base": "page2", "page2": "splash", "splash": "base"}[page]
                     swapped_in_batch = True
                 if ukey == "f8":
                     break
